@@ -98,3 +98,21 @@ func init() {
 }
 
 func TestC11(t *testing.T) { runWorldProp(t, "C11") }
+
+// the same oracle over histories with several AVSs: registrations, updates, opt-ins into more
+// than one AVS, tasks, results and challenges interleaved with restaking and fee payments, so
+// that every epoch hook (voting power, fee distribution, task statistics) runs over such states
+func init() {
+	base := *worldProps["C11"]
+	base.Name = "C11AVS"
+	w := avsWeights()
+	for k, v := range map[string]int{"payFee": 3, "nativeDelegate": 2, "optIn": 2, "optOut": 1, "setKey": 1, "undelegate": 4, "depositNST": 1, "nstUpdate": 1} {
+		w[k] = v
+	}
+	base.Gen = GenOpts{Weights: w, HostilePct: 15, ExtremePct: 4, MaxDt: 40, Tempos: []int{7, 21, 45}, Dynamic: avsDynamic, Anchor: true}
+	base.Config = avsConfig
+	base.MinSteps, base.MaxSteps = 30, 100
+	registerWorldProp(&base)
+}
+
+func TestC11AVS(t *testing.T) { runWorldProp(t, "C11AVS") }
